@@ -103,7 +103,7 @@ func compress(in []byte, writes []int, b2 bool) (out []byte, nWrites int, err er
 }
 
 func decompress(z []byte, reads []int, b2 bool, limit int, src []int) (out []byte, nReads int, err error) {
-	r, err := lzhuf.NewReader(gen.NewSource(z, src), b2)
+	r, err := lzhuf.NewReader(source(z, src), b2)
 	if err != nil {
 		return nil, 0, fmt.Errorf("NewReader: %v", err)
 	}
@@ -203,6 +203,15 @@ func runCodec(c Case, sigp, msgp *string, nWp, nRp *int) {
 	}()
 }
 
+// source: without a delivery schedule the stream comes from a bytes.Reader (what fbb hands to the decoder: it
+// has Len(), ReadByte, WriteTo), otherwise from the piecewise Source.
+func source(z []byte, src []int) io.Reader {
+	if len(src) == 0 {
+		return bytes.NewReader(z)
+	}
+	return gen.SourceFor(z, src)
+}
+
 func firstDiff(a, b []byte) int {
 	for i := 0; i < len(a) && i < len(b); i++ {
 		if a[i] != b[i] {
@@ -265,7 +274,7 @@ func TestProp(t *testing.T) {
 	max := harness.Scale(256<<10, 1<<20)
 	rapid.Check(t, func(t *rapid.T) {
 		in, fam := gen.Bytes(t, max)
-		c := Case{Input: in, Family: fam, Writes: gen.Schedule(t, "writes"), Reads: gen.Schedule(t, "reads"), B2: rapid.Bool().Draw(t, "b2"), Src: gen.SourceSchedule(t, "src")}
+		c := Case{Input: in, Family: fam, Writes: gen.Schedule(t, "writes"), Reads: gen.Schedule(t, "reads"), B2: rapid.Bool().Draw(t, "b2"), Src: gen.SourceScheduleEOF(t, "src")}
 		if rapid.IntRange(0, 9).Draw(t, "prelude") == 0 {
 			c.Prelude = rapid.SampledFrom([]int{100, 4000, 6000, 20000}).Draw(t, "prelude_n")
 			c.PreludeFail = rapid.SampledFrom([]int{0, 1, 100, 4096, 5000}).Draw(t, "prelude_fail")
